@@ -8,7 +8,8 @@ Two sources of truth, both read on every run:
     divisors and digit alphabet of utils.c, getBasePrefix and scratch-buffer sizes of parser.c,
     the multiplier *expressions* of units.c, kept as exact rationals).
 
-The functions of fifo.c are translated as a whole (not only tables) by translate/c2lean.py, called from generate().
+The functions of fifo.c are translated as a whole (not only tables) by translate/c2lean.py, called from generate();
+those of lexer.c by translate/c2lean_lexer.py.
 """
 import os, re, subprocess, sys, json
 from fractions import Fraction
@@ -346,9 +347,25 @@ def generate(cfg="A", builddir=None, outpath=None):
                 f.write(_c.stub("ScpiVerif.Gen.FifoC", failed["fifo_c"]))
         except Exception:
             pass
-    return {"changed": old != text or fifo_c.get("changed", False), "path": outpath, "failed": failed,
+    # C -> Lean translation of lexer.c (Gen/LexerC.lean): same treatment, section "lexer_c" (translate/c2lean_lexer.py).
+    lexer_c = {"functions": [], "changed": False}
+    try:
+        import c2lean_lexer
+        lexer_c = c2lean_lexer.generate_lexer(os.path.join(os.path.dirname(outpath), "LexerC.lean"))
+        if lexer_c["failed"]:
+            failed["lexer_c"] = "; ".join("%s: %s" % kv for kv in sorted(lexer_c["failed"].items()))[:400]
+    except Exception as e:
+        failed["lexer_c"] = ("c2lean_lexer: %s: %s" % (type(e).__name__, e))[:400]
+        try:
+            import c2lean_lexer as _cl
+            with open(os.path.join(os.path.dirname(outpath), "LexerC.lean"), "w") as f:
+                f.write(_cl.stub(failed["lexer_c"]))
+        except Exception:
+            pass
+    return {"changed": old != text or fifo_c.get("changed", False) or lexer_c.get("changed", False), "path": outpath, "failed": failed,
             "rows": {"errclass": len(errclass), "errdesc": len(errdesc), "units": len(unit_rows), "special": len(special),
-                     "fifo_c_functions": len(fifo_c.get("functions", []))}}
+                     "fifo_c_functions": len(fifo_c.get("functions", [])),
+                     "lexer_c_functions": len(lexer_c.get("functions", []))}}
 
 if __name__ == "__main__":
     cfg = sys.argv[1] if len(sys.argv) > 1 else "A"
